@@ -519,6 +519,12 @@ def _is_view_descendant(base: "Tensor", t: "Tensor") -> bool:
     )
 
 
+def _as_array_or_weak_scalar(t: ArrayLike) -> Union[np.ndarray, bool, int, float]:
+    """Like ``asarray``, but Python scalars are passed through so that NumPy keeps
+    treating them as weakly typed (``float32_array == 0.1`` compares in float32)."""
+    return t if type(t) in _PY_SCALARS else asarray(t)
+
+
 def _as_constant_array(t: Union["Tensor", np.ndarray]) -> np.ndarray:
     """Passes through all non-tensor objects and constant tensors. Raises on
     non-constant tensors."""
@@ -759,7 +765,7 @@ class Tensor:
 
         # non-differentiable ufuncs get called on numpy arrays stored by tensors
         if ufunc in _REGISTERED_BOOL_ONLY_UFUNC:
-            caster = asarray
+            caster = _as_array_or_weak_scalar
         elif ufunc in _REGISTERED_CONST_ONLY_UFUNC:
             # the presence of non-constant tensors will raise
             caster = _as_constant_array
@@ -2465,22 +2471,22 @@ class Tensor:
         return self._op(Tensor_Transpose_Property, self)
 
     def __eq__(self, other: ArrayLike) -> np.ndarray:
-        return np.ndarray.__eq__(self.data, asarray(other))
+        return np.ndarray.__eq__(self.data, _as_array_or_weak_scalar(other))
 
     def __ne__(self, other: ArrayLike) -> np.ndarray:
-        return np.ndarray.__ne__(self.data, asarray(other))
+        return np.ndarray.__ne__(self.data, _as_array_or_weak_scalar(other))
 
     def __lt__(self, other: ArrayLike) -> np.ndarray:
-        return np.ndarray.__lt__(self.data, asarray(other))
+        return np.ndarray.__lt__(self.data, _as_array_or_weak_scalar(other))
 
     def __le__(self, other: ArrayLike) -> np.ndarray:
-        return np.ndarray.__le__(self.data, asarray(other))
+        return np.ndarray.__le__(self.data, _as_array_or_weak_scalar(other))
 
     def __gt__(self, other: ArrayLike) -> np.ndarray:
-        return np.ndarray.__gt__(self.data, asarray(other))
+        return np.ndarray.__gt__(self.data, _as_array_or_weak_scalar(other))
 
     def __ge__(self, other: ArrayLike) -> np.ndarray:
-        return np.ndarray.__ge__(self.data, asarray(other))
+        return np.ndarray.__ge__(self.data, _as_array_or_weak_scalar(other))
 
     def __imatmul__(self, other):  # pragma: no cover
         raise TypeError(
